@@ -143,8 +143,57 @@ def overflow_asserts(body):
 MP = "libp2p_mplex"
 
 
+IO_ARGS = {"new": ["io", "config"], "poll_flush": ["self", "cx"], "poll_close": ["self", "cx"], "poll_next_stream": ["self", "cx"],
+           "poll_open_stream": ["self", "cx"], "drop_stream": ["self", "id"], "poll_write_stream": ["self", "cx", "id", "buf"],
+           "poll_read_stream": ["self", "cx", "id"], "poll_flush_stream": ["self", "cx", "id"], "poll_close_stream": ["self", "cx", "id"],
+           "poll_send_frame": ["self", "cx", "frame"], "poll_read_frame": ["self", "cx", "stream_id"], "on_open": ["self", "id"],
+           "on_reset": ["self", "id"], "on_close": ["self", "id"], "can_read": ["self", "id"], "buffer": ["self", "id", "data"],
+           "send_pending_frames": ["self", "cx"], "on_error": ["self", "e"]}
+
+
 def io_body(ctx, name):
-    return ctx.body(MP, r"^libp2p_mplex::io::Multiplexed::%s$" % name)
+    """A method of mplex `Multiplexed`, with its parameters rendered under the canonical names of IO_ARGS."""
+    b = ctx.body(MP, r"^libp2p_mplex::io::Multiplexed::%s$" % name)
+    if name in IO_ARGS:
+        canon_args(b, IO_ARGS[name])
+    return b
+
+
+def canon_io(prog):
+    """Apply IO_ARGS to every Multiplexed method (for rules that sweep all bodies of the crate)."""
+    for b in prog.bodies(MP):
+        m = re.match(r"^libp2p_mplex::io::Multiplexed::(\w+)$", b.npath)
+        if m and m.group(1) in IO_ARGS:
+            canon_args(b, IO_ARGS[m.group(1)])
+
+
+def none_edges(body, place):
+    """Edges on which the Option at rendered place `place` is known to be None (`match`/`if let` discriminant, or
+    `is_none()` / `is_some()`)."""
+    return body.guard_edges(lambda c, r, l: (l == "None" and r == "discr(%s)" % place) or
+                            (l == "true" and r == "std::option::Option::is_none(%s)" % place) or (l == "false" and r == "std::option::Option::is_some(%s)" % place))
+
+
+def some_edges(body, place):
+    return body.guard_edges(lambda c, r, l: (l == "Some" and r == "discr(%s)" % place) or
+                            (l == "false" and r == "std::option::Option::is_none(%s)" % place) or (l == "true" and r == "std::option::Option::is_some(%s)" % place))
+
+
+def opt_eq_key(rendered, label, place):
+    """If (condition, label) establishes `place == Some(K)` return K's text, else None.  Forms: Option == Option in either
+    operand order, `!=` on the false edge, and equality of the payload `place@Some.0` with K."""
+    for pat, lab in ((r"^<std::option::Option as std::cmp::PartialEq>::eq\(%s, std::option::Option::Some\{0: (.+)\}\)$", "true"),
+                     (r"^<std::option::Option as std::cmp::PartialEq>::eq\(std::option::Option::Some\{0: (.+)\}, %s\)$", "true"),
+                     (r"^<std::option::Option as std::cmp::PartialEq>::ne\(%s, std::option::Option::Some\{0: (.+)\}\)$", "false"),
+                     (r"^<std::option::Option as std::cmp::PartialEq>::ne\(std::option::Option::Some\{0: (.+)\}, %s\)$", "false"),
+                     (r"^.*PartialEq>::eq\(%s@Some\.0, (.+)\)$", "true"), (r"^.*PartialEq>::ne\(%s@Some\.0, (.+)\)$", "false")):
+        m = re.match(pat % re.escape(place), rendered)
+        if m and label == lab:
+            return m.group(1)
+    m = re.match(r"^.*PartialEq>::eq\((.+), %s@Some\.0\)$" % re.escape(place), rendered)
+    if m and label == "true":
+        return m.group(1)
+    return None
 
 
 def substream_inserts(body):
@@ -171,7 +220,7 @@ def variant_table(body, state_pat, variants, classify, extra=None):
             asg["x%d" % i] = extra[p]
         res, unk, bare = lib.cell_eval(body, asg, amap, set(z))
         unk_all |= unk
-        tab[v] = sorted({classify(z[b]) for b in res})
+        tab[v] = sorted({classify(z[b]) for b in res}, key=lambda x: (x is None, str(x)))
     return tab, unk_all
 
 
@@ -366,3 +415,323 @@ def show_val(v):
     if v == ():
         return "()"
     return str(v)
+
+
+# ---------------------------------------------------------------------------- robustness helpers (refactoring-neutral matching)
+def canon_args(body, names):
+    """Render the parameters of `body` under canonical names (`names[i]` for parameter i+1) whatever they are called
+    in the source, so that rules never depend on a parameter's spelling.  Returns body."""
+    if getattr(body, "_canon_args", None) == tuple(names):
+        return body
+    for i, n in enumerate(names):
+        if i + 1 <= body.argc and n is not None:
+            body.names[i + 1] = n
+    body._expr_cache.clear()
+    body._canon_args = tuple(names)
+    return body
+
+
+def canon_upvars(body, names):
+    """Same for the captured variables of a closure body: capture #i is rendered `^names[i]` (a by-reference
+    capture keeps its `*`)."""
+    if getattr(body, "_canon_upvars", None) == tuple(names):
+        return body
+
+    def fix(p):
+        for pr in (p or {}).get("pr", ()):
+            if pr.get("k") == "field" and str(pr.get("n", "")).startswith("upvar:") and pr.get("i") is not None and pr["i"] < len(names) and names[pr["i"]]:
+                star = "*" if pr["n"].split(":", 1)[1].startswith("*") else ""
+                pr["n"] = "upvar:" + star + names[pr["i"]]
+
+    def fix_op(o):
+        if isinstance(o, dict) and o.get("k") in ("copy", "move"):
+            fix(o.get("p"))
+    for blk in body.blocks:
+        for st in blk["stmts"]:
+            if st["k"] == "assign":
+                fix(st["p"])
+                r = st["r"]
+                fix(r.get("p"))
+                for key in ("o", "a", "b"):
+                    fix_op(r.get(key))
+                for o in r.get("ops", ()):
+                    fix_op(o)
+        t = blk["term"]
+        if t:
+            for a in t.get("args", ()):
+                fix_op(a)
+            fix_op(t.get("o"))
+            fix_op(t.get("f"))
+            fix(t.get("d"))
+            fix(t.get("p"))
+    body._expr_cache.clear()
+    body._canon_upvars = tuple(names)
+    return body
+
+
+def cval(e):
+    """Evaluated integer value of a constant expression (literal, named constant, cast or checked arithmetic of those);
+    None if it is not a compile-time constant."""
+    t = e[0]
+    if t == "const":
+        return e[1] if isinstance(e[1], int) and not isinstance(e[1], bool) else (int(e[1]) if isinstance(e[1], bool) else None)
+    if t == "namedconst":
+        return e[2] if isinstance(e[2], int) else None
+    if t == "cast":
+        return cval(e[1])
+    if t == "bin":
+        a, b = cval(e[2]), cval(e[3])
+        if a is None or b is None:
+            return None
+        op = e[1].replace("WithOverflow", "")
+        try:
+            return {"Add": a + b, "Sub": a - b, "Mul": a * b, "Shl": a << b, "Shr": a >> b, "BitAnd": a & b, "BitOr": a | b}.get(op)
+        except (ValueError, OverflowError):
+            return None
+    if t == "field" and e[2] == "0" and e[1][0] == "bin" and e[1][1].endswith("WithOverflow"):
+        return cval(e[1])
+    return None
+
+
+_FLIP = {"lt": "gt", "le": "ge", "gt": "lt", "ge": "le", "eq": "eq", "ne": "ne"}
+_NEG = {"lt": "ge", "le": "gt", "gt": "le", "ge": "lt", "eq": "ne", "ne": "eq"}
+_OPS = {"Lt": "lt", "Le": "le", "Gt": "gt", "Ge": "ge", "Eq": "eq", "Ne": "ne"}
+
+
+def _cmp_of(cond):
+    """(rel, a, b, negated?) for a (possibly negated) integer comparison expression, else None."""
+    neg = False
+    while cond[0] == "un" and cond[1] == "Not":
+        neg = not neg
+        cond = cond[2]
+    if cond[0] == "bin" and cond[1] in _OPS:
+        rel = _OPS[cond[1]]
+        return (_NEG[rel] if neg else rel), cond[2], cond[3]
+    return None
+
+
+def rel_edges(body, lhs_pred, rhs_pred, prog=None):
+    """All CFG edges on which an integer relation `L rel R` is *known*, for comparisons whose operands satisfy
+    lhs_pred(expr) / rhs_pred(expr) (either operand order, either polarity, `!(..)` looked through):
+    list of dicts {edge, rel, lhs (expr), rhs (expr), switch (bb), via}.
+
+    With `prog`, one level of crate-local helper is summarised: for a call `h(.., x, ..)` whose result is tested
+    (`?`, `match`, `if h(..)`), if inside `h` every successful return (`Ok(..)` / `true`) is dominated by edges that
+    establish `param rel R` (same rel), the caller's success edges of that call establish `x rel R`; the failing edges
+    establish nothing (they are not needed by any rule)."""
+    out = []
+    for bi in sorted(body.live):
+        info = body.switch_info(bi)
+        if not info:
+            continue
+        c = _cmp_of(info[0])
+        if not c:
+            continue
+        rel, a, b = c
+        if lhs_pred(a) and rhs_pred(b):
+            l, r = a, b
+        elif lhs_pred(b) and rhs_pred(a):
+            l, r, rel = b, a, _FLIP[rel]
+        else:
+            continue
+        for tgt, ls in info[1].items():
+            for lab in ls:
+                if lab == "true":
+                    out.append(dict(edge=(bi, tgt), rel=rel, lhs=l, rhs=r, switch=bi, via=None))
+                elif lab == "false":
+                    out.append(dict(edge=(bi, tgt), rel=_NEG[rel], lhs=l, rhs=r, switch=bi, via=None))
+    if prog is None:
+        return out
+    by_path = {b.npath: b for b in prog.bodies(body.crate)}
+    for s in body.call_sites():
+        h = by_path.get(strip_generics(body.call_name(s.term)))
+        if h is None or h is body:
+            continue
+        args = body.site_expr(s)[2]
+        for pi, actual in enumerate(args):
+            if not lhs_pred(actual):
+                continue
+            # `fn fits(n) -> bool { n <= MAX }`: the returned value *is* the comparison
+            d0 = [d for d in h.defs.get(0, []) if d[0] == "stmt"]
+            if len(h.defs.get(0, [])) == 1 and len(d0) == 1:
+                cm = _cmp_of(h.rvalue_expr(d0[0][3]))
+                if cm:
+                    rel0, a0, b0 = cm
+                    hit = None
+                    if a0[0] == "arg" and a0[1] == pi + 1 and rhs_pred(b0):
+                        hit = (rel0, b0)
+                    elif b0[0] == "arg" and b0[1] == pi + 1 and rhs_pred(a0):
+                        hit = (_FLIP[rel0], a0)
+                    if hit:
+                        for e in result_edges(body, s, {"true"}):
+                            out.append(dict(edge=e, rel=hit[0], lhs=actual, rhs=hit[1], switch=e[0], via=h.npath))
+                        for e in result_edges(body, s, {"false"}):
+                            out.append(dict(edge=e, rel=_NEG[hit[0]], lhs=actual, rhs=hit[1], switch=e[0], via=h.npath))
+                        continue
+            inner = rel_edges(h, lambda e, pi=pi: e[0] == "arg" and e[1] == pi + 1, rhs_pred)
+            if not inner:
+                continue
+            z = zero_assigns(h)
+            succ_bbs = [bb for bb, v in z.items() if v.startswith("std::result::Result::Ok{") or v == "1"]
+            for rel in ("le", "lt", "ge", "gt", "eq", "ne"):
+                es = {x["edge"] for x in inner if x["rel"] == rel}
+                if es and succ_bbs and all(h.must_pass_edges(bb, es) for bb in succ_bbs):
+                    rhs = [x["rhs"] for x in inner if x["rel"] == rel][0]
+                    for e in result_edges(body, s, {"Continue", "Ok", "true"}):
+                        out.append(dict(edge=e, rel=rel, lhs=actual, rhs=rhs, switch=e[0], via=h.npath))
+    return out
+
+
+_ADAPT = re.compile(r"(Result|Poll|Option)::(map_err|map|map_ok|ok|ok_or|ok_or_else|transpose)$|ops::Try>?::branch$|convert::Into>?::into$|hint::must_use$")
+
+
+def _call_chain(cond):
+    """Calls whose (success of the) result the condition tests: strips discr / Not / downcast / field wrappers and looks
+    through success-preserving adaptors (`?`, map, map_err, map_ok, ok, transpose ..).  Outermost first."""
+    e, out = cond, []
+    for _ in range(24):
+        t = e[0]
+        if t == "discr":
+            e = e[1]
+        elif t == "un" and e[1] == "Not":
+            e = e[2]
+        elif t in ("downcast", "field"):
+            e = e[1]
+        elif t == "call" and _ADAPT.search(strip_generics(e[1])) and e[2]:
+            e = e[2][0]
+        elif t == "call":
+            out.append(e)
+            break
+        else:
+            break
+    return out
+
+
+def _core_call(cond):
+    ch = _call_chain(cond)
+    return ch[-1] if ch else None
+
+
+def result_edges(body, site, labels):
+    """Edges of switches that test the *result of the call at `site`* (through `?`, `ready!`, `match`, `if`), with all
+    labels in `labels`."""
+    labels = set(labels)
+    out = set()
+    for bi in body.live:
+        info = body.switch_info(bi)
+        if not info:
+            continue
+        c = _core_call(info[0])
+        if c is None or c[3] != site.bb:
+            continue
+        neg = info[0][0] == "un" and info[0][1] == "Not"
+        for tgt, ls in info[1].items():
+            ls2 = {("false" if l == "true" else "true" if l == "false" else l) for l in ls} if neg else set(ls)
+            if ls2 and ls2 <= labels:
+                out.add((bi, tgt))
+    return out
+
+
+def edges_with(rels, wanted):
+    return {x["edge"] for x in rels if x["rel"] in wanted}
+
+
+def ok_edges(body, site):
+    """Edges on which the call at `site` is known to have succeeded: `?` (Continue), `match .. { Ok(..) / Some(..) }`."""
+    return result_edges(body, site, {"Continue", "Ok"})
+
+
+def is_err_result(text):
+    """A `_0` value that is an error exit (explicit `Err(..)`, `?` residual, `Poll::Ready(Err(..))`, `self.on_error(..)`)."""
+    return ("from_residual" in text or text.startswith("std::result::Result::Err{") or text.startswith("std::task::Poll::Ready{0: std::result::Result::Err{")
+            or text.endswith("::on_error") or "Multiplexed::on_error(" in text)
+
+
+def eq_edges(body, pa, pb):
+    """(equal_edges, unequal_edges): CFG edges on which `A == B` resp. `A != B` is known, for tests `A == B` / `A != B`
+    (any PartialEq impl, either operand order, `!(..)` looked through) whose rendered operands satisfy pa / pb."""
+    eq, ne = set(), set()
+    for bi in body.live:
+        info = body.switch_info(bi)
+        if not info:
+            continue
+        c, neg = info[0], False
+        while c[0] == "un" and c[1] == "Not":
+            c, neg = c[2], not neg
+        if c[0] == "bin" and c[1] in ("Eq", "Ne"):
+            is_eq, x, y = c[1] == "Eq", render(c[2]), render(c[3])
+        elif c[0] == "call" and len(c[2]) == 2 and re.search(r"::(eq|ne)$", strip_generics(c[1])):
+            is_eq, x, y = strip_generics(c[1]).endswith("::eq"), render(c[2][0]), render(c[2][1])
+        else:
+            continue
+        if not ((pa(x) and pb(y)) or (pa(y) and pb(x))):
+            continue
+        for tgt, ls in info[1].items():
+            for lab in ls:
+                if lab not in ("true", "false"):
+                    continue
+                holds = (lab == "true") != neg          # truth of the tested expression on this edge
+                (eq if holds == is_eq else ne).add((bi, tgt))
+    return eq, ne
+
+
+def is_min_of(e, pa, pb):
+    """e is `min(A, B)` (cmp::min / Ord::min, either operand order) with rendered operands satisfying pa / pb."""
+    if e[0] == "call" and len(e[2]) == 2 and re.search(r"(^|::)(cmp::min|Ord::min|cmp::Ord::min|min)$", strip_generics(e[1])):
+        x, y = e[2]
+        return (pa(x) and pb(y)) or (pa(y) and pb(x))
+    return False
+
+
+_SELF_FORMS = re.compile(r"std::pin::Pin::get_mut\(self\)|<std::pin::Pin as std::ops::DerefMut>::deref_mut\(self\)|<std::pin::Pin as std::ops::Deref>::deref\(self\)"
+                         r"|std::pin::Pin::get_ref\(self\)|std::pin::Pin::into_inner\(self\)")
+
+
+def norm_self(text, alias="this"):
+    """Render every way of reaching the receiver through `Pin<&mut Self>` (get_mut / deref / deref_mut, or a local alias
+    bound to it) as `this`."""
+    t = _SELF_FORMS.sub("this", text)
+    if alias != "this":
+        t = re.sub(r"(?<![\w:])%s(?=[.)@, ])" % re.escape(alias), "this", t)
+    return t
+
+
+def upvar_map(prog, body, closure_expr):
+    """For a ('closure', def, upvars) expression in `body`: (closure body, dict captured-name (without `*`) -> the parent's operand expression)."""
+    cl = prog.closure_body(body, closure_expr[1])
+    names = {}
+
+    def scan(p):
+        for pr in (p or {}).get("pr", ()):
+            if pr.get("k") == "field" and str(pr.get("n", "")).startswith("upvar:") and pr.get("i") is not None:
+                names[pr["i"]] = pr["n"].split(":", 1)[1].lstrip("*")
+    for blk in cl.blocks:
+        for st in blk["stmts"]:
+            if st["k"] == "assign":
+                scan(st["p"])
+                r = st["r"]
+                scan(r.get("p"))
+                for key in ("o", "a", "b"):
+                    o = r.get(key)
+                    if isinstance(o, dict):
+                        scan(o.get("p"))
+                for o in r.get("ops", ()):
+                    scan(o.get("p"))
+        t = blk["term"]
+        if t:
+            for a in t.get("args", ()):
+                scan(a.get("p"))
+    return cl, {names.get(i, "#%d" % i): x for i, x in enumerate(closure_expr[2])}
+
+
+def sections(ctx, *fns):
+    """Run the rule sections of a module one by one; a section that meets a code shape it cannot interpret is reported as
+    one failing obligation (fail closed) without hiding the verdicts of the other sections."""
+    import traceback
+    for fn in fns:
+        try:
+            fn(ctx)
+        except mir.RuleError as e:
+            ctx.ob("anchor", "%s: %s" % (fn.__name__.strip("_"), str(e)[:100]), False, msg="fail closed: " + str(e), nontrivial=False)
+        except Exception:
+            ctx.ob("anchor", "%s: code shape not understood" % fn.__name__.strip("_"), False, msg="fail closed: " + traceback.format_exc()[-1200:], nontrivial=False)
